@@ -1,6 +1,6 @@
 \* quick, merge / DOT-centred: the 4 types a.A, ab.A, b.B, bb.B (package names whose concatenations collide), each class
 \* with at most one field of a candidate or library type, x {none, H, P, HP} x 3 include filters; relation loop of
-\* MergeHeaderFile and node loop of BuildMapTree in every order (3-type subsets: Arch_MC_merge.cfg, thorough)
+\* MergeHeaderFile in every order (3-type subsets: Arch_MC_merge.cfg, thorough)
 SPECIFICATION Spec
 CONSTANTS
   Universe <- U_collide
